@@ -9,6 +9,7 @@ package zygo
 type vGen struct {
 	env   *Zlisp
 	nints int
+	deep  bool // generating below a depth-2 root: no products there (a product under a comparison is a 64-bit symbolic multiplication the solver does not decide in time)
 }
 
 func (g *vGen) atom() Sexp {
@@ -25,35 +26,60 @@ func (g *vGen) atom() Sexp {
 var vArithOps = []string{"+", "-", "*"}
 var vCmpOps = []string{"<", "==", "<="}
 
-// expr generates an expression of nesting depth <= d.
+// expr generates an expression of nesting depth <= d.  At depth 2 (thorough
+// tier) one operand of the outer form - every choice of which - is a depth-1
+// expression and the others are atoms: all operands deep at once would exceed
+// the path cap (about 10^5 shapes times their control paths).
 func (g *vGen) expr(d int) Sexp {
 	if d <= 0 {
 		return g.atom()
 	}
 	e := g.env
-	switch vChoice("form", 11) {
+	if d >= 2 {
+		g.deep = true
+	}
+	form := vChoice("form", 11)
+	nops := []int{0, 2, 2, 3, 2, 2, 2, 2, 1, 2, 1}[form]
+	which := 0
+	if d >= 2 && nops > 1 {
+		which = vChoice("deep", nops)
+	}
+	k := 0
+	sub := func() Sexp {
+		dd := d - 1
+		if d >= 2 && k != which {
+			dd = 0
+		}
+		k++
+		return g.expr(dd)
+	}
+	switch form {
 	case 0:
 		return g.atom()
 	case 1:
-		return vL(vS(e, vArithOps[vChoice("aop", 3)]), g.expr(d-1), g.expr(d-1))
+		nar := 3
+		if g.deep {
+			nar = 2
+		}
+		return vL(vS(e, vArithOps[vChoice("aop", nar)]), sub(), sub())
 	case 2:
-		return vL(vS(e, vCmpOps[vChoice("cop", 3)]), g.expr(d-1), g.expr(d-1))
+		return vL(vS(e, vCmpOps[vChoice("cop", 3)]), sub(), sub())
 	case 3:
-		return vL(vS(e, "cond"), g.expr(d-1), g.expr(d-1), g.expr(d-1))
+		return vL(vS(e, "cond"), sub(), sub(), sub())
 	case 4:
-		return vL(vS(e, "and"), g.expr(d-1), g.expr(d-1))
+		return vL(vS(e, "and"), sub(), sub())
 	case 5:
-		return vL(vS(e, "or"), g.expr(d-1), g.expr(d-1))
+		return vL(vS(e, "or"), sub(), sub())
 	case 6:
-		return vL(vS(e, "begin"), vL(vS(e, "t"), g.expr(d-1)), g.expr(d-1))
+		return vL(vS(e, "begin"), vL(vS(e, "t"), sub()), sub())
 	case 7:
-		return vL(vS(e, "let"), vA(e, vS(e, "x"), g.expr(d-1)), g.expr(d-1))
+		return vL(vS(e, "let"), vA(e, vS(e, "x"), sub()), sub())
 	case 8:
-		return vL(vS(e, "set"), vS(e, "a"), g.expr(d-1))
+		return vL(vS(e, "set"), vS(e, "a"), sub())
 	case 9:
-		return vL(vL(vS(e, "fn"), vA(e, vS(e, "x")), g.expr(d-1)), g.expr(d-1))
+		return vL(vL(vS(e, "fn"), vA(e, vS(e, "x")), sub()), sub())
 	default:
-		return vL(vS(e, "t"), g.expr(d-1))
+		return vL(vS(e, "t"), sub())
 	}
 }
 
